@@ -316,6 +316,26 @@ fn generic_frame_ops<const N: usize>(st: &mut Stream, rng: &mut Rng) {
         let want_some = len >= N;
         let ok = match r { Some(f) => want_some && f.iter().enumerate().all(|(i, &x)| x == i as i64 + 1) && rest == len - N, None => !want_some && rest == 0 };
         if !ok { st.oracle_fail("from_samples: wrong frame / leftover", &format!("fromsamples {} {}", N, len), "", &obs); } else { st.oracle_ok(1); }
+        // the same from iterators that say nothing useful about their length (`size_hint` is only a hint: `(0, None)` is the
+        // trait's default answer, `(0, Some(usize::MAX))` and a too-small lower bound are legal too)
+        {
+            let mut k = 0i64;
+            let mut it = std::iter::from_fn(|| { if (k as usize) < len { k += 1; Some(k) } else { None } });
+            let r2: Option<[i64; N]> = Frame::from_samples(&mut it);
+            let rest2 = it.count();
+            struct Loose<I>(I, (usize, Option<usize>));
+            impl<I: Iterator> Iterator for Loose<I> { type Item = I::Item; fn next(&mut self) -> Option<I::Item> { self.0.next() } fn size_hint(&self) -> (usize, Option<usize>) { self.1 } }
+            let mut it3 = Loose((1..=len as i64).into_iter(), (0, Some(usize::MAX)));
+            let r3: Option<[i64; N]> = Frame::from_samples(&mut it3);
+            let rest3 = it3.count();
+            let mut it4 = Loose((1..=len as i64).into_iter(), (len.min(1), None));
+            let r4: Option<[i64; N]> = Frame::from_samples(&mut it4);
+            let rest4 = it4.count();
+            let mono: Option<i64> = if N == 1 { let mut k1 = 0i64; let mut itm = std::iter::from_fn(|| { if (k1 as usize) < len { k1 += 1; Some(k1) } else { None } }); <i64 as Frame>::from_samples(&mut itm) } else { None };
+            if r2 != r || rest2 != rest || r3 != r || rest3 != rest || r4 != r || rest4 != rest || (N == 1 && mono != r.map(|f| f[0])) {
+                st.oracle_fail("from_samples depends on the iterator's size_hint (from_fn / loose upper bound / loose lower bound / bare sample) instead of on the samples it yields", &format!("fromsamples {} {}", N, len), &format!("{:?} rest {}", r, rest), &format!("from_fn {:?} rest {}; (0,Some(MAX)) {:?} rest {}; (min(len,1),None) {:?} rest {}", r2, rest2, r3, rest3, r4, rest4));
+            } else { st.oracle_ok(3); }
+        }
     }
     // map / zip_map with closures (call order observed)
     for _ in 0..3 {
